@@ -157,13 +157,23 @@ let predict (c : string) (obs : string) : string * string * bool =
       (* sizes: length of the longest line of each entry as rendered (what a line scanner must hold) *)
       let szs = List.map n_of_string (String.split_on_char ',' sizes) in
       predict_cell kind pre lim pas n cons cancel [eof; fs] (Some (n_of_string maxsz, szs)) obs
-  | "engine" :: kind :: pre :: lim :: pas :: n :: _inst :: rest ->
+  | "engine" :: _ | "enginef" :: _ ->
+      (* enginef: with a chosencases list; the bounds and the shots are judged on the chosen entries *)
+      let kind, pre, lim, pas, n, rest, chosen =
+        (match split_blank c with
+         | ["enginef"; kind; pre; lim; pas; n; _inst; fs; mask] ->
+             (kind, pre, lim, pas, n, [fs], (if mask = "-" then [] else List.map int_of_string (String.split_on_char ',' mask)))
+         | _ :: kind :: pre :: lim :: pas :: n :: _inst :: rest -> (kind, pre, lim, pas, n, rest, [])
+         | _ -> failwith "engine case") in
       let fs = (match rest with ["1"] -> FsOS | _ -> FsMem) in
       let n = int_of_string n and lim = int_of_string lim and pas = int_of_string pas in
-      let es = List.init n (fun i -> { e_tag = nat_of_int i; e_id = nat_of_int i }) in
-      let cf = { limit = nat_of_int lim; passes = nat_of_int pas; chosen = [] } in
+      let es_all = List.init n (fun i -> { e_tag = nat_of_int i; e_id = nat_of_int i }) in
+      let cf = { limit = nat_of_int lim; passes = nat_of_int pas; chosen = List.map nat_of_int chosen } in
+      let es_spec = List.filter (fun e -> is_chosen e.e_tag cf.chosen) es_all in
       let k = kind_of kind (pre = "1") in
-      let bnd = (match bound cf.limit cf.passes (nat_of_int n) with Some b -> int_of_nat b | None -> 0) in
+      let bnd = (match bound cf.limit cf.passes (nat_of_int (List.length es_spec)) with Some b -> int_of_nat b | None -> 0) in
+      let bnd = if es_spec = [] then 0 else bnd in
+      let es = es_all in
       let fr = run_file fs k cf es None (nat_of_int (50 * (bnd + n + 2))) in
       let r = fr.f_base in
       let l = List.sort compare (List.map int_of_nat (ids r.delivered)) in
@@ -175,10 +185,11 @@ let predict (c : string) (obs : string) : string * string * bool =
       let oshots, oseq, ores, owait =
         (match split_blank obs with [a; b; c; d] -> (int_of_string a, b, c, d) | _ -> (0, "-", "?", "?")) in
       let obs_ids = if oseq = "-" then [] else List.map int_of_string (String.split_on_char ',' oseq) in
-      let ok = spec_b cf.limit cf.passes es None false (List.map nat_of_int obs_ids) (owait = "1")
-          (if ores = "ok" then ROk else RErr) in
+      let ok = spec_b cf.limit cf.passes es_spec None false (List.map nat_of_int obs_ids) (owait = "1")
+          (if ores = "ok" then ROk else if ores = "hang" then RHang else RErr) in
       (pred, verdict (oshots = List.length obs_ids && ok)
-         (Printf.sprintf "want %d shots (one per ammo of the cyclic prefix), Engine.Run nil, Engine.Wait returns" bnd), true)
+         (if es_spec = [] then "nothing chosen: want no shot, Engine.Run returns, Engine.Wait returns" else
+          Printf.sprintf "want %d shots (one per ammo of the cyclic prefix), Engine.Run nil, Engine.Wait returns" bnd), true)
   | ["enginec"; kind; pre; lim; pas; n; inst; fs; at] ->
       (* the engine's context is cancelled before Engine.Run (at = 0) / inside shot number at: the shots
          are a cyclic prefix of at least [at] items (the instances stop within a few shots),
